@@ -115,6 +115,31 @@ class Tables:
             return [(ast.Constant(value=i), v) for i, v in enumerate(e.elts)]
         return None
 
+    def iter_rows(self, e: ast.AST) -> Optional[list]:
+        """Rows a `for` loop over the expression visits, in order: a constant sequence, or .items()/.values()/.keys() of a
+        module/class-level dict literal (keys may be class names here: they are only bound, not compared)."""
+        which = None
+        if isinstance(e, ast.Call) and isinstance(e.func, ast.Attribute) and e.func.attr in ("items", "values", "keys") and not e.args and not e.keywords:
+            which, e = e.func.attr, e.func.value
+        lit = None
+        if isinstance(e, ast.Name) and not self._is_local(e.id):
+            lit = self.f.module.assigns.get(e.id)
+        elif isinstance(e, ast.Attribute) and isinstance(e.value, ast.Name) and self.f.cls is not None and self.f.params and e.value.id == self.f.params[0]:
+            got = self.model.lookup_assign(self.f.cls, e.attr)
+            lit = got[1] if got is not None else None
+        if isinstance(lit, ast.Dict):
+            if not lit.keys or len(lit.keys) > MAX_ROWS or any(k is None or not _row_ok(k) for k in lit.keys) or not all(_row_ok(v) for v in lit.values):
+                return None
+            if which == "items":
+                return [(None, ast.Tuple(elts=[k, v], ctx=ast.Load())) for k, v in zip(lit.keys, lit.values)]
+            if which == "values":
+                return [(None, v) for v in lit.values]
+            return [(None, k) for k in lit.keys]
+        if which is None:
+            rows = self.rows(e)
+            return rows if isinstance(rows, list) else None
+        return None
+
     def is_dict_table(self, e: ast.AST) -> bool:
         """A module- or class-level *dict* literal (a dispatch table), as opposed to a list of names used as a set."""
         if isinstance(e, ast.Name) and not self._is_local(e.id):
@@ -356,9 +381,14 @@ def _stores(stmts, names: set) -> bool:
 def _bind_row(targets: ast.AST, row: ast.AST) -> Optional[dict]:
     if isinstance(targets, ast.Name):
         return {targets.id: row}
-    if isinstance(targets, (ast.Tuple, ast.List)) and isinstance(row, (ast.Tuple, ast.List)) and len(targets.elts) == len(row.elts) \
-            and all(isinstance(t, ast.Name) for t in targets.elts):
-        return {t.id: v for t, v in zip(targets.elts, row.elts)}
+    if isinstance(targets, (ast.Tuple, ast.List)) and isinstance(row, (ast.Tuple, ast.List)) and len(targets.elts) == len(row.elts):
+        out: dict = {}
+        for t, v in zip(targets.elts, row.elts):
+            b = _bind_row(t, v)
+            if b is None:
+                return None
+            out.update(b)
+        return out
     return None
 
 
@@ -396,6 +426,8 @@ class _Stmt:
                     d = self.t.f.module.assigns.get(d.id, d)
                 if _row_ok(d) and not isinstance(d, ast.Name):
                     look = (s.value.func.value, s.value.args[0], d)
+            if look is not None and not isinstance(s.targets[0], (ast.Tuple, ast.List)):
+                look = None  # a scalar lookup becomes a conditional expression (expression pass), not a duplicated block
             if look is not None:
                 rows = self.t.rows(look[0])
                 rest = stmts[i + 1:]
@@ -436,8 +468,8 @@ class _Stmt:
             if isinstance(s, ast.For) and not s.orelse and isinstance(s.target, (ast.Name, ast.Tuple)) and len(s.body) == 1 \
                     and isinstance(s.body[0], ast.If) and not s.body[0].orelse and s.body[0].body and isinstance(s.body[0].body[-1], ast.Break) \
                     and not any(isinstance(n, (ast.Break, ast.Continue)) for x in s.body[0].body[:-1] for n in ast.walk(x)) \
-                    and isinstance(s.iter, (ast.Name, ast.Attribute)):
-                rows = self.t.rows(s.iter)
+                    and isinstance(s.iter, (ast.Name, ast.Attribute, ast.Call)):
+                rows = self.t.iter_rows(s.iter)
                 if isinstance(rows, list):
                     binds = [_bind_row(s.target, v) for _, v in rows]
                     names = {n.id for n in ast.walk(s.target) if isinstance(n, ast.Name)}
@@ -455,9 +487,9 @@ class _Stmt:
                         continue
             # for x, y in TABLE: BODY  ->  unrolled
             if isinstance(s, ast.For) and not s.orelse and isinstance(s.target, (ast.Name, ast.Tuple)):
-                rows = self.t.rows(s.iter)
+                rows = self.t.iter_rows(s.iter)
                 if isinstance(rows, list) and not any(isinstance(n, (ast.Break, ast.Continue)) for n in ast.walk(s)) \
-                        and isinstance(s.iter, (ast.Name, ast.Attribute)):
+                        and isinstance(s.iter, (ast.Name, ast.Attribute, ast.Call)):
                     binds = [_bind_row(s.target, v) for _, v in rows]
                     names = {n.id for n in ast.walk(s.target) if isinstance(n, ast.Name)}
                     if all(b is not None for b in binds) and not _stores(s.body, names) and not _stores(stmts[i + 1:], set()):
